@@ -82,6 +82,7 @@ def gen(prop, stream, tier, avoid):
     nops = kn.pick([3, 4, 5, 6, 8, 10, 14] + ([20, 28] if tier == "thorough" else []))
     W = {"eval": 3, "eval_list": 1.5, "sample": 2, "delta": 1, "deriv": 3, "insert": 1.5, "remove": 0.8, "refine": 0.6,
          "split": 1, "decompose": 0.6, "tangent": 1, "normal": 0.8, "tessellate": 1.2, "voxelize": 1.2 if pooled else 0.3,
+         "length": 0.5, "hodograph": 0.7, "find_ctrlpts": 0.7,
          "cadd": 2.5 if pooled and surf_idx else 0, "ctess": 3 if pooled and surf_idx else 0,
          "cread": 1.5 if pooled and surf_idx else 0, "edit_handle": 0.7 if pooled and surf_idx and "handle_after_pool" not in avoid else 0}
     weights = [(k, w * kn.uniform(0.4, 1.3)) for k, w in W.items() if w > 0]
@@ -124,7 +125,7 @@ def gen(prop, stream, tier, avoid):
         elif k == "split":
             op["dir"] = rng.randrange(2)
             op["t"] = rng.randint(1, 31) / 32.0
-        elif k in ("tangent", "normal"):
+        elif k in ("tangent", "normal", "hodograph", "find_ctrlpts"):
             op["t"] = t
         elif k == "tessellate":
             op["n"] = rng.randint(2, 6)
@@ -403,6 +404,34 @@ def execute_workload(script, cfg):
                 p = P(op["t"])
                 r = g.operations.tangent(obj, p[0] if nd == 1 else p, normalize=True)
                 val = [list(x) if isinstance(x, (list, tuple)) else x for x in r]
+            elif k == "length":
+                if nd != 1:
+                    out.append(["skip"])
+                    continue
+                val = [g.operations.length_curve(obj)]
+            elif k == "hodograph":
+                if nd == 3 or spec["rational"]:
+                    out.append(["skip"])
+                    continue
+                if nd == 1:
+                    hods = [g.operations.derivative_curve(obj)]
+                    scales = [aL[0][1]]
+                else:
+                    hods = list(g.operations.derivative_surface(obj))
+                    scales = [aL[0][1], aL[1][1], aL[0][1] * aL[1][1]]
+                val = []
+                for hod, sc in zip(hods, scales):
+                    dm = hod.domain
+                    dms = [dm] if nd == 1 else dm
+                    prm = [lo + (hi - lo) * x for (lo, hi), x in zip(dms, op["t"][:nd])]
+                    val.append([c * sc for c in hod.evaluate_single(prm[0] if nd == 1 else prm)])
+            elif k == "find_ctrlpts":
+                if nd == 3:
+                    out.append(["skip"])
+                    continue
+                p = P(op["t"])
+                r = g.operations.find_ctrlpts(obj, p[0]) if nd == 1 else g.operations.find_ctrlpts(obj, p[0], p[1])
+                val = [list(x) if not isinstance(x[0], (list, tuple)) else [list(y) for y in x] for x in r]
             elif k == "normal":
                 if nd != 2:
                     out.append(["skip"])
